@@ -29,7 +29,7 @@ import (
 
 // ---- in-memory connection: reads come from a preloaded script, writes are discarded ----
 
-type memConn struct {
+type c18MemConn struct {
 	mu      sync.Mutex
 	cond    *sync.Cond
 	in      []byte
@@ -38,13 +38,13 @@ type memConn struct {
 	written int
 }
 
-func newMemConn(remote net.Addr, script []byte) *memConn {
-	c := &memConn{in: append([]byte(nil), script...), remote: remote}
+func c18NewMemConn(remote net.Addr, script []byte) *c18MemConn {
+	c := &c18MemConn{in: append([]byte(nil), script...), remote: remote}
 	c.cond = sync.NewCond(&c.mu)
 	return c
 }
 
-func (c *memConn) Read(b []byte) (int, error) {
+func (c *c18MemConn) Read(b []byte) (int, error) {
 	c.mu.Lock()
 	defer c.mu.Unlock()
 	for len(c.in) == 0 && !c.closed {
@@ -58,7 +58,7 @@ func (c *memConn) Read(b []byte) (int, error) {
 	return n, nil
 }
 
-func (c *memConn) Write(b []byte) (int, error) {
+func (c *c18MemConn) Write(b []byte) (int, error) {
 	c.mu.Lock()
 	defer c.mu.Unlock()
 	if c.closed {
@@ -68,23 +68,25 @@ func (c *memConn) Write(b []byte) (int, error) {
 	return len(b), nil
 }
 
-func (c *memConn) Close() error {
+func (c *c18MemConn) Close() error {
 	c.mu.Lock()
 	c.closed = true
 	c.cond.Broadcast()
 	c.mu.Unlock()
 	return nil
 }
-func (c *memConn) LocalAddr() net.Addr              { return &net.TCPAddr{IP: net.IPv4(127, 0, 0, 1), Port: 8333} }
-func (c *memConn) RemoteAddr() net.Addr             { return c.remote }
-func (c *memConn) SetDeadline(time.Time) error      { return nil }
-func (c *memConn) SetReadDeadline(time.Time) error  { return nil }
-func (c *memConn) SetWriteDeadline(time.Time) error { return nil }
+func (c *c18MemConn) LocalAddr() net.Addr {
+	return &net.TCPAddr{IP: net.IPv4(127, 0, 0, 1), Port: 8333}
+}
+func (c *c18MemConn) RemoteAddr() net.Addr             { return c.remote }
+func (c *c18MemConn) SetDeadline(time.Time) error      { return nil }
+func (c *c18MemConn) SetReadDeadline(time.Time) error  { return nil }
+func (c *c18MemConn) SetWriteDeadline(time.Time) error { return nil }
 
-type strAddr string
+type c18StrAddr string
 
-func (a strAddr) Network() string { return "tcp" }
-func (a strAddr) String() string  { return string(a) }
+func (a c18StrAddr) Network() string { return "tcp" }
+func (a c18StrAddr) String() string  { return string(a) }
 
 // ---- the rig ----
 
@@ -93,7 +95,7 @@ const (
 	c18BanTicks = 24        // BanDuration = 24 h, the shipped default
 )
 
-type rigPeer struct {
+type c18RigPeer struct {
 	handle string
 	sp     *p2p.VerifServerPeer
 	kind   string // in | out | pers
@@ -106,14 +108,14 @@ type rigPeer struct {
 	admitted bool
 }
 
-type peerRig struct {
+type c18PeerRig struct {
 	srv      *p2p.VerifServer
 	st       *p2p.VerifPeerState
 	hostIPs  []string
 	groupIdx map[string]int
 	groups   []string
 	port     int
-	peers    map[string]*rigPeer
+	peers    map[string]*c18RigPeer
 	hsVerack []byte // version + verack
 	hsDouble []byte // version + version (misbehaving remote)
 	// oracle's own books
@@ -131,10 +133,10 @@ func c18HostIP(i, ngroups int) string {
 	return fmt.Sprintf("%d.1.%d.7", 50+i%ngroups, i/ngroups+1)
 }
 
-func newPeerRig(nhosts, ngroups int) *peerRig {
+func c18NewPeerRig(nhosts, ngroups int) *c18PeerRig {
 	nop := zerolog.Nop()
-	r := &peerRig{srv: p2p.VerifNewServer(c18BanTicks*c18Tick, &nop), st: p2p.VerifNewPeerState(), groupIdx: map[string]int{},
-		peers: map[string]*rigPeer{}, banEnd: map[int]int{}, port: 20000, valid: true}
+	r := &c18PeerRig{srv: p2p.VerifNewServer(c18BanTicks*c18Tick, &nop), st: p2p.VerifNewPeerState(), groupIdx: map[string]int{},
+		peers: map[string]*c18RigPeer{}, banEnd: map[int]int{}, port: 20000, valid: true}
 	for i := 0; i < nhosts; i++ {
 		ip := c18HostIP(i, ngroups)
 		r.hostIPs = append(r.hostIPs, ip)
@@ -169,12 +171,12 @@ func newPeerRig(nhosts, ngroups int) *peerRig {
 // (so VersionKnown() and the process-wide peer id are set by the real code) before the
 // peer is handed to handleAddPeerMsg; !vk: connected, no version yet (id 0).
 // onVersion, when set, replaces the default listener (used by the double-version scenario).
-func (r *peerRig) newPeer(handle, kind string, host int, vk bool, script []byte, onVersion func(*rigPeer)) (*rigPeer, error) {
+func (r *c18PeerRig) newPeer(handle, kind string, host int, vk bool, script []byte, onVersion func(*c18RigPeer)) (*c18RigPeer, error) {
 	return r.newPeerWith(handle, kind, host, vk, script, onVersion, 1)
 }
 
 // newPeerWith waits for `versions` OnVersion callbacks before returning.
-func (r *peerRig) newPeerWith(handle, kind string, host int, vk bool, script []byte, onVersion func(*rigPeer), versions int) (*rigPeer, error) {
+func (r *c18PeerRig) newPeerWith(handle, kind string, host int, vk bool, script []byte, onVersion func(*c18RigPeer), versions int) (*c18RigPeer, error) {
 	r.port++
 	ip := r.hostIPs[host]
 	addr := net.JoinHostPort(ip, strconv.Itoa(r.port))
@@ -182,7 +184,7 @@ func (r *peerRig) newPeerWith(handle, kind string, host int, vk bool, script []b
 	lg := zerolog.New(lb).Level(zerolog.DebugLevel)
 	nop := zerolog.Nop()
 	seen := make(chan struct{}, 4)
-	rp := &rigPeer{handle: handle, kind: kind, host: host, vk: vk, logbuf: lb}
+	rp := &c18RigPeer{handle: handle, kind: kind, host: host, vk: vk, logbuf: lb}
 	cfg := &peer.Config{
 		Listeners: peer.MessageListeners{OnVersion: func(p *peer.Peer, _ *wire.MsgVersion) *wire.MsgReject {
 			if onVersion != nil {
@@ -210,7 +212,7 @@ func (r *peerRig) newPeerWith(handle, kind string, host int, vk bool, script []b
 	if !vk {
 		script = nil
 	}
-	conn := newMemConn(&net.TCPAddr{IP: net.ParseIP(ip), Port: r.port}, script)
+	conn := c18NewMemConn(&net.TCPAddr{IP: net.ParseIP(ip), Port: r.port}, script)
 	p.AssociateConnection(conn)
 	gone := make(chan struct{})
 	go func() { p.WaitForDisconnect(); close(gone) }()
@@ -244,7 +246,7 @@ func (r *peerRig) newPeerWith(handle, kind string, host int, vk bool, script []b
 	return rp, nil
 }
 
-func (r *peerRig) closeAll() {
+func (r *c18PeerRig) closeAll() {
 	for _, p := range r.peers {
 		p.sp.Disconnect()
 	}
@@ -266,12 +268,12 @@ func c18Reason(log string) string {
 	return "?"
 }
 
-func (r *peerRig) counters(host, group int) string {
+func (r *c18PeerRig) counters(host, group int) string {
 	s := p2p.VerifSnap(r.st)
 	return fmt.Sprintf("n=%d ip=%d grp=%d", s.Count, s.ConnectionCount[r.hostIPs[host]], s.OutboundGroups[r.groups[group]])
 }
 
-func (r *peerRig) dump() string {
+func (r *c18PeerRig) dump() string {
 	s := p2p.VerifSnap(r.st)
 	hostOf := func(addr string) string {
 		h, _, err := net.SplitHostPort(addr)
@@ -350,13 +352,11 @@ func (r *peerRig) dump() string {
 //   peer ban <host>     peer clock <ticks>     peer shutdown     peer dump
 // concrete lines sent to the Lean driver carry the real peer id and the group index.
 
-type peerStepOut struct {
+type c18PeerStepOut struct {
 	abstract string
 	model    string // line for the Lean driver
 	impl     string // canonical output of the implementation
 }
-
-func kindWord(k string) string { return k }
 
 type c18Oracle struct {
 	c       *Ctx
@@ -370,7 +370,7 @@ func (o *c18Oracle) fail(what, exp, obs, sig string) {
 
 // checkBooks: the independent counting statement. Uses only what the handlers returned
 // (admitted / rejected), never the peerState, to decide what SHOULD be in the state.
-func (r *peerRig) checkBooks(o *c18Oracle) {
+func (r *c18PeerRig) checkBooks(o *c18Oracle) {
 	s := p2p.VerifSnap(r.st)
 	o.checked++
 	if s.Count > config.MaxPeers {
@@ -417,9 +417,9 @@ func (r *peerRig) checkBooks(o *c18Oracle) {
 	}
 }
 
-func (r *peerRig) run(c *Ctx, ops []string, o *c18Oracle) ([]peerStepOut, error) {
-	var out []peerStepOut
-	emit := func(abs, model, impl string) { out = append(out, peerStepOut{abs, model, impl}) }
+func (r *c18PeerRig) run(c *Ctx, ops []string, o *c18Oracle) ([]c18PeerStepOut, error) {
+	var out []c18PeerStepOut
+	emit := func(abs, model, impl string) { out = append(out, c18PeerStepOut{abs, model, impl}) }
 	emit("peer new", fmt.Sprintf("peer new %d", c18BanTicks), "ok")
 	nbad := 0
 	for _, op := range ops {
@@ -496,7 +496,7 @@ func (r *peerRig) run(c *Ctx, ops []string, o *c18Oracle) ([]peerStepOut, error)
 			lb := &bytes.Buffer{}
 			lg := zerolog.New(lb).Level(zerolog.DebugLevel)
 			bp := peer.NewInboundPeer(&peer.Config{Log: &nop, ChainParams: &chaincfg.MainNetParams})
-			bp.AssociateConnection(newMemConn(strAddr("not-a-host-port"), nil))
+			bp.AssociateConnection(c18NewMemConn(c18StrAddr("not-a-host-port"), nil))
 			sp := p2p.VerifNewServerPeer(r.srv, bp, false, &lg)
 			ok := p2p.VerifAddPeer(r.srv, r.st, sp)
 			res := "admitted"
@@ -555,15 +555,15 @@ func (r *peerRig) run(c *Ctx, ops []string, o *c18Oracle) ([]peerStepOut, error)
 
 // ---- generators ----
 
-type peerHistory struct {
+type c18PeerHistory struct {
 	name            string
 	nhosts, ngroups int
 	ops             []string
 	accident        bool // contains peers outside the theorems' assumptions (no version / id 0)
 }
 
-func genPeerHistory(rng *rand.Rand, n int, style string) peerHistory {
-	h := peerHistory{name: style, nhosts: 5, ngroups: 2}
+func c18GenPeerHistory(rng *rand.Rand, n int, style string) c18PeerHistory {
+	h := c18PeerHistory{name: style, nhosts: 5, ngroups: 2}
 	if style == "wide" {
 		h.nhosts, h.ngroups = 30, 7
 	}
@@ -649,9 +649,9 @@ func genPeerHistory(rng *rand.Rand, n int, style string) peerHistory {
 	return h
 }
 
-// runPeerHistory executes one history on the implementation, compares with the model, runs the oracle.
-func runPeerHistory(c *Ctx, l *lib.Lean, h peerHistory) error {
-	r := newPeerRig(h.nhosts, h.ngroups)
+// c18RunPeerHistory executes one history on the implementation, compares with the model, runs the oracle.
+func c18RunPeerHistory(c *Ctx, l *lib.Lean, h c18PeerHistory) error {
+	r := c18NewPeerRig(h.nhosts, h.ngroups)
 	defer r.closeAll()
 	o := &c18Oracle{c: c}
 	outs, err := r.run(c, h.ops, o)
@@ -735,7 +735,7 @@ func runPeerHistory(c *Ctx, l *lib.Lean, h peerHistory) error {
 // c18RealTimeBan: the ban window once against the real clock (no clock shifting): 40 ms ban.
 func c18RealTimeBan(c *Ctx) error {
 	nop := zerolog.Nop()
-	r := newPeerRig(2, 2)
+	r := c18NewPeerRig(2, 2)
 	defer r.closeAll()
 	r.srv = p2p.VerifNewServer(40*time.Millisecond, &nop)
 	o := &c18Oracle{c: c, ops: []string{"scenario real-time-ban: ban host 0 (BanDuration 40 ms), add, sleep 60 ms, add"}}
